@@ -1346,6 +1346,9 @@ def _handle_lookup_stage(in_collection, database, options):
 
 
 def _recursive_get(match, nested_fields):
+    if not isinstance(match, dict):
+        # An item of an array that is not a document has no fields.
+        return
     head = match.get(nested_fields[0])
     remaining_fields = nested_fields[1:]
     if not remaining_fields:
